@@ -101,6 +101,57 @@ EvalChk(e, tree) ==
           \o (IF TanOk(acc, ref[3]) THEN <<>> ELSE Fail("C12.eval.acc", RToStr(RelErrV(acc, ref[3])), RToStr(TolDer)))
           \o Fail("C12.eval", "no admissible one-sided limit matches value, velocity and acceleration together", "")
 
+\* C12.arclength (K = 3, commutative groups): integral over [0,t] of the component-wise absolute body velocity.
+\* The abstract curve is flattened into pieces [T, V, u0, u1] (duration, control velocities, parameter range).
+RECURSIVE Flatten(_)
+RECURSIVE CropPieces(_, _, _, _, _)
+CropPieces(ps, i, s, a, b) ==      \* pieces i.. of ps, piece i starting at time s; keep the part inside [a, b]
+  IF i > Len(ps) THEN <<>>
+  ELSE LET p == ps[i]  e == RAdd(s, p.T)
+           lo == RMax(s, a)  hi == RMin(e, b)
+           U(x) == RAdd(p.u0, RDiv(RMul(RSub(p.u1, p.u0), RSub(x, s)), p.T))
+           rest == CropPieces(ps, i + 1, e, a, b)
+       IN IF RLt(lo, hi) THEN <<[T |-> RSub(hi, lo), V |-> p.V, u0 |-> U(lo), u1 |-> U(hi)]>> \o rest ELSE rest
+Flatten(c) ==
+  CASE c.k = "Empty" -> <<>>
+    [] c.k = "Seg" -> <<[T |-> c.T, V |-> c.V, u0 |-> R0, u1 |-> R1]>>
+    [] c.k = "CV" -> <<[T |-> c.T, V |-> [i \in 1..3 |-> VScale(RDiv(c.T, RFromInt(3)), c.v)], u0 |-> R0, u1 |-> R1]>>
+    [] c.k \in {"CatL", "CatG"} -> Flatten(c.x1) \o Flatten(c.x2)
+    [] c.k = "Crop" -> CropPieces(Flatten(c.x), 1, R0, RMax(c.ta, R0), RMin(c.tb, GTMax(c.x)))
+\* integral of |A u^2 + B u + C| over [ua, ub], exact up to the enclosure of the square root (2^-100)
+AbsQuadInt(A, B, C, ua, ub) ==
+  LET F(u) == RAdd(RAdd(RMul(RDiv(A, RFromInt(3)), RMul(u, RSq(u))), RMul(RDiv(B, R2), RSq(u))), RMul(C, u))
+      disc == RSub(RSq(B), RMul(RFromInt(4), RMul(A, C)))
+      roots == IF RSign(A) = 0
+               THEN (IF RSign(B) = 0 THEN <<>> ELSE <<RNeg(RDiv(C, B))>>)
+               ELSE IF RSign(disc) <= 0 THEN <<>>
+               ELSE LET sq == SqrtLo(disc, 100)
+                        r1 == RDiv(RSub(RNeg(B), sq), RMul(R2, A))  r2 == RDiv(RAdd(RNeg(B), sq), RMul(R2, A))
+                    IN IF RLt(r1, r2) THEN <<r1, r2>> ELSE <<r2, r1>>
+      inside == SelectSeq(roots, LAMBDA r : RLt(ua, r) /\ RLt(r, ub))
+      pts == <<ua>> \o inside \o <<ub>>
+      RECURSIVE Acc(_)
+      Acc(i) == IF i >= Len(pts) THEN R0 ELSE RAdd(RAbs(RSub(F(pts[i + 1]), F(pts[i]))), Acc(i + 1))
+  IN Acc(1)
+\* arclength up to time t of component m
+RECURSIVE ArcPieces(_, _, _, _, _)
+ArcPieces(ps, i, s, t, m) ==
+  IF i > Len(ps) \/ RLeq(t, s) THEN R0
+  ELSE LET p == ps[i]  e == RAdd(s, p.T)
+           hi == RMin(e, t)
+           ub == RAdd(p.u0, RDiv(RMul(RSub(p.u1, p.u0), RSub(hi, s)), p.T))
+           v1 == p.V[1][m]  v2 == p.V[2][m]  v3 == p.V[3][m]
+           A == RMul(RFromInt(3), RAdd(RSub(v1, RMul(R2, v2)), v3))
+           B == RMul(RFromInt(6), RSub(v2, v1))
+           C == RMul(RFromInt(3), v1)
+       IN RAdd(AbsQuadInt(A, B, C, p.u0, ub), ArcPieces(ps, i + 1, e, t, m))
+ArcChk(e, tree) ==
+  LET g == e.g  n == Dof(g)  t == D(e.t)  out == V(e.out)
+      ps == Flatten(tree)
+      want == RForce([m \in 1..n |-> ArcPieces(ps, 1, R0, t, m)])
+  IN IF e.K # 3 \/ ~IsCommutative(g) \/ g.k # "R" THEN <<>>
+     ELSE ChkR("C12.arclength", RelOkV(out, want, TolVal), RelErrV(out, want), TolVal)
+
 ---------------------------------------------------------------------------
 \* per-event transition: <<regs', problems>>
 Tuple1(vs) == [i \in 1..Len(vs) |-> vs[i][1]]     \* R^1 tangents as scalars
@@ -179,7 +230,7 @@ Step(regs, e) ==
     [] e.op = "catg" -> StepCat(regs, e, FALSE)
     [] e.op = "crop" -> StepCrop(regs, e)
     [] e.op = "eval" -> StepEval(regs, e)
-    [] e.op = "arclen" -> <<regs, <<>>>>
+    [] e.op = "arclen" -> <<regs, IF regs[e.src].ok /\ FinV(e.out) THEN ArcChk(e, regs[e.src].t) ELSE <<>>>>
     [] OTHER -> <<regs, <<[clause |-> "TOOL.unknown_op", err |-> e.op, tol |-> ""]>>>>
 
 Stratum(regs, e) ==
